@@ -1,12 +1,3 @@
 #!/bin/bash
-# Development tool: like try_patch.sh but on the private worktree /tmp/wt/main (usable while /repo is busy).
-patch=$1; shift
-cd /tmp/wt/main || exit 2
-git checkout -q -- . ; git clean -fdq
-if ! git apply "$patch" 2>/tmp/apply_wt.err; then echo "PATCH DOES NOT APPLY: $(head -3 /tmp/apply_wt.err)"; exit 2; fi
-mkdir -p /tmp/try_verif_wt; cp /verif/KNOWN_FINDINGS.txt /tmp/try_verif_wt/
-for p in "$@"; do
-  out=$(${OTELCHECK:-/verif/bin/otelcheck} -property $p -tier ${TIER:-quick} -repo /tmp/wt/main -verif /tmp/try_verif_wt 2>&1); rc=$?
-  echo "== $p exit=$rc"; echo "$out" | grep -v "^VIOLATION\|^  key\|KNOWN-FINDING" | cut -c1-${WIDTH:-400} | head -${LINES_MAX:-6}
-done
-cd /tmp/wt/main; git checkout -q -- . ; git clean -fdq
+# Development tool: alias of try_patch.sh (which now always works on a scratch worktree).
+exec /verif/scripts/try_patch.sh "$@"
